@@ -96,6 +96,7 @@ TLC_EVENT_KEYS = {
     "amend_result",
     "finalize_end",
     "ext_edit",
+    "hash_submit",
 }
 
 
